@@ -25,7 +25,10 @@
 using vr::crsd;
 typedef amgcl::backend::builtin<double> B;
 
-static const int TS[] = {1, 2, 3, 4, 5, 8, 16, 17, 24, 32};
+// ascending by default; VERIF_ORDER=desc visits the same counts in descending order (a fresh
+// process each: anything cached at first use - a static thread count, a lazily sized table -
+// then meets a *smaller* team than it was laid out for)
+static int TS[] = {1, 2, 3, 4, 5, 8, 16, 17, 24, 32};
 static const int NTS = sizeof(TS) / sizeof(TS[0]);
 
 typedef std::vector<double> vec;
@@ -44,11 +47,24 @@ static std::shared_ptr<crsd> perturb(std::shared_ptr<crsd> A, vr::rng &g, bool k
     return A;
 }
 
+// two interleaved stars: hubs 0 and 1, leaf i attached to hub (i % 2); SPD M-matrix
+static std::shared_ptr<crsd> two_stars(vr::rng &g, int n) {
+    std::vector<std::vector<std::pair<int,double>>> rows(n);
+    std::vector<double> hub(2, 0.0);
+    for (int i = 2; i < n; ++i) { double w = 1.0 + 0.5 * g.unit(); int h = i % 2; rows[i].push_back({h, -w}); rows[i].push_back({i, w + 0.01}); hub[h] += w; }
+    for (int h = 0; h < 2; ++h) { rows[h].push_back({h, hub[h] + 1.0}); }
+    // hub rows: list their leaves (sorted)
+    for (int h = 0; h < 2; ++h) for (int i = 2 + h; i < n; i += 2) rows[h].push_back({i, rows[i][0].second});
+    for (auto &r : rows) std::sort(r.begin(), r.end());
+    return vr::from_rows(n, n, rows);
+}
+
 struct item { std::string name, cls; long long bound; bool via_product; std::function<vec(vr::digest&)> f; };
 
 static void run_item(const item &it) {
     std::vector<vec> res(NTS); std::vector<vr::digest> dg(NTS);
-    for (int k = 0; k < NTS; ++k) { omp_set_num_threads(TS[k]); res[k] = it.f(dg[k]); dg[k].vec(res[k].data(), res[k].size()); }
+    bool desc = getenv("VERIF_ORDER") && std::string(getenv("VERIF_ORDER")) == "desc";
+    for (int q = 0; q < NTS; ++q) { int k = desc ? NTS - 1 - q : q; omp_set_num_threads(TS[k]); res[k] = it.f(dg[k]); dg[k].vec(res[k].data(), res[k].size()); }
     omp_set_num_threads(1);
     double spread = 0, scale = 0; bool shape = true;
     for (double v : res[0]) scale = std::max(scale, std::fabs(v));
@@ -123,6 +139,13 @@ int main() {
         items.push_back({"idrs-amg-solve", "rounding", 1LL << 28, true, [&](vr::digest &d) {
             typedef amgcl::make_solver<amgcl::amg<B, amgcl::coarsening::smoothed_aggregation, amgcl::relaxation::spai0>, amgcl::solver::idrs<B>> SOL;
             SOL::params p; p.precond.coarse_enough = 20; p.solver.tol = 1e-10; SOL s(*S, p); vec x(n, 0.0); s(f, x); return x; }});
+        // few large aggregates whose members are spread over the whole index range: every thread
+        // accumulates into the same coarse columns at the same time (stresses the critical section)
+        auto St = two_stars(g, th ? 60000 : 30000);
+        items.push_back({"transfer-smoothed_aggr_emin-stars", "rounding", 4096, false, [&](vr::digest &d) {
+            amgcl::coarsening::smoothed_aggr_emin<B>::params ep; ep.aggr.eps_strong = 0;     // every connection strong: two big aggregates
+            amgcl::coarsening::smoothed_aggr_emin<B> c(ep); auto PR = c.transfer_operators(*St);
+            vec v = flat(*std::get<0>(PR)); vec r = flat(*std::get<1>(PR)); v.insert(v.end(), r.begin(), r.end()); return v; }});
         for (auto &it : items) run_item(it);
     }
     vr::obj o; o.str("e", "End"); vr::emit(o.done());
